@@ -239,8 +239,11 @@ class Config:
                 if actual_type != type_:
                     raise SocketTypeError(type_, actual_type)
             else:
+                bracketed_host_only = bind.startswith("[") and bind.endswith("]")
                 bind = bind.replace("[", "").replace("]", "")
                 try:
+                    if bracketed_host_only:
+                        raise ValueError("No port given")
                     value = bind.rsplit(":", 1)
                     host, port = value[0], int(value[1])
                 except (ValueError, IndexError):
